@@ -415,7 +415,11 @@ func (e *env) processResults(s *session, rs []*spb.ModifyResponse) {
 					// (whichever operation the id stands for: this stream's own, another session's held one, or
 					// one shadowed by a later use of the id)
 					for _, c := range []*opRec{s.sent[res.GetId()], e.allOps[res.GetId()], e.shadow[res.GetId()]} {
-						if c == nil || (c.state != opSent && c.state != opHeld) || c.op.GetOp() == spb.AFTOperation_DELETE {
+						if c == nil || (c.state != opSent && c.state != opHeld) {
+							continue
+						}
+						if c.op.GetOp() == spb.AFTOperation_DELETE {
+							canNow = true // (a DELETE needs nothing to resolve: the result may be its own as things are)
 							continue
 						}
 						switch v, _, _ := e.model.Expect(c.op); v {
